@@ -10,10 +10,12 @@ import (
 	"fmt"
 	"io"
 	"os"
+	"os/exec"
 	"path/filepath"
 	"reflect"
 	"regexp"
 	"runtime"
+	"strconv"
 	"strings"
 	"sync"
 	"sync/atomic"
@@ -104,6 +106,10 @@ var sinks = []*sink{
 	{name: "spread/SafeURL-and-templ.URL", mk: SpreadSafeURL, mayOmit: true},
 	{name: "spread/value-types-not-rendered-today", mk: SpreadOtherTypes, mayOmit: true},
 	{name: "spread/three-rendered-types-side-by-side", mk: SpreadKeyFromValue},
+	{name: "spread/same-map-on-four-elements", mk: func(s string) templ.Component {
+		p := s
+		return SpreadSameMapTwice(templ.Attributes{"data-x": s, "data-p": &p, "data-k": templ.KV(s, true)})
+	}},
 	{name: "jsonscript/id", mk: JSONID},
 	{name: "jsonscript/type", mk: JSONType},
 	{name: "jsonscript/nonce-from-string", mk: JSONNonce},
@@ -309,7 +315,27 @@ func parallel(n int, f func(i int)) {
 	wg.Wait()
 }
 
+// firstUse is the body of a fresh process: sink k is the very first thing this process renders (no call of any
+// escaping helper before it), with each of a few adversarial strings in turn. Prints one line per problem.
+func firstUse(k int) {
+	for _, s := range firstUseStrings {
+		html, err := sinks[k].render(s)
+		if err != nil {
+			fmt.Printf("PROBLEM\t%s\t%s\trender error %v\n", vlib.Quote(s), "", err)
+			continue
+		}
+		fmt.Printf("OUT\t%s\t%s\n", vlib.Quote(s), vlib.Quote(html))
+	}
+}
+
+var firstUseStrings = []string{"\"><img src=x onerror=alert(1)>", "' onmouseover='alert(1)", "<script>", "&amp;", "a"}
+
 func main() {
+	if len(os.Args) > 2 && os.Args[len(os.Args)-2] == "firstuse" {
+		k, _ := strconv.Atoi(os.Args[len(os.Args)-1])
+		firstUse(k)
+		return
+	}
 	run = vlib.Start("C01", "exploration")
 	for _, k := range sinks {
 		html, err := k.render(mark)
@@ -364,6 +390,48 @@ func main() {
 			checkOne(k, strs[i])
 		}
 	})
+	// first use: for every sink a fresh process in which that sink is the very first thing rendered (tables and pools
+	// built lazily by some other entry point are still empty); the output must be what this process renders
+	{
+		self, err := os.Executable()
+		if err != nil {
+			vlib.Fatal("%v", err)
+		}
+		type res struct {
+			k   int
+			out string
+			err error
+		}
+		results := make([]res, len(sinks))
+		parallel(len(sinks), func(k int) {
+			b, err := exec.Command(self, "firstuse", strconv.Itoa(k)).Output()
+			results[k] = res{k, string(b), err}
+		})
+		fresh := 0
+		for _, r := range results {
+			if r.err != nil {
+				run.Violation("first-use-crash:"+sinks[r.k].name, fmt.Sprintf("a fresh process that renders sink %s first failed: %v", sinks[r.k].name, r.err), map[string]any{"sink": sinks[r.k].name})
+				continue
+			}
+			for _, line := range strings.Split(strings.TrimSpace(r.out), "\n") {
+				f := strings.Split(line, "\t")
+				if len(f) < 3 {
+					continue
+				}
+				fresh++
+				in, _ := strconv.Unquote(f[1])
+				if f[0] == "PROBLEM" {
+					run.Violation("first-use:"+sinks[r.k].name, fmt.Sprintf("sink %s as the first render of a fresh process, with %s: %s", sinks[r.k].name, f[1], f[len(f)-1]), map[string]any{"sink": sinks[r.k].name, "input": in})
+					continue
+				}
+				html, _ := strconv.Unquote(f[2])
+				if pr := sinks[r.k].compare(in, html); pr != "" {
+					run.Violation("first-use:"+sinks[r.k].name, fmt.Sprintf("sink %s as the first render of a fresh process, with %s, rendered %s: %s", sinks[r.k].name, f[1], f[2], pr), map[string]any{"sink": sinks[r.k].name, "input": in, "html": html})
+				}
+			}
+		}
+		run.Cov["first_use_renders_in_fresh_processes"] = fresh
+	}
 	// histories on one goroutine pinned to its thread: a render that FAILS (data that cannot be encoded, an expression
 	// that returns an error, a writer that fails after a few bytes) immediately followed by every sink with
 	// every short alphabet string: whatever the failed render left in a pool or cache meets the next render
